@@ -177,7 +177,7 @@ func (l *Loaded) specialiseCallbacks() ([]string, error) {
 						okUses = false
 					}
 				}
-				if !okUses || nCalls == 0 || cbSig.Results().Len() > 1 {
+				if !okUses || nCalls == 0 {
 					continue
 				}
 				if cbSig.Results().Len() == 0 {
@@ -214,7 +214,8 @@ func (l *Loaded) specialiseCallbacks() ([]string, error) {
 					var res ast.Expr
 					switch st := lit.Body.List[0].(type) {
 					case *ast.ReturnStmt:
-						if len(st.Results) == 1 && cbSig.Results().Len() == 1 {
+						// (several results: the one returned expression is a call that yields them all)
+						if len(st.Results) == 1 && cbSig.Results().Len() >= 1 {
 							res = st.Results[0]
 						}
 					case *ast.ExprStmt:
@@ -462,6 +463,101 @@ func (l *Loaded) specialiseCallbacks() ([]string, error) {
 				}
 				f.Decls = append(keep, added...)
 			}
+		}
+	}
+	if len(affected) == 0 {
+		return nil, nil
+	}
+	if err := l.recheck(affected); err != nil {
+		return nil, err
+	}
+	sort.Strings(notes)
+	return notes, nil
+}
+
+// inlineSingleUseClosures: "f := func(...) {...}" immediately followed by the one statement
+// that mentions f, as an argument of a call, is judged as the call with the literal written in
+// place (the form the repository itself uses for its callbacks).  The literal is created one
+// statement later than written, which nothing can observe: it captures variables, not values,
+// and no declaration lies between the two statements.
+func (l *Loaded) inlineSingleUseClosures() ([]string, error) {
+	if skipHOF || skipIdentity || os.Getenv("P9_NO_IDENTITY") != "" {
+		return nil, nil
+	}
+	var notes []string
+	affected := map[*packages.Package]bool{}
+	for _, p := range l.modulePkgs() {
+		info := p.TypesInfo
+		if info == nil {
+			continue
+		}
+		for _, f := range p.Syntax {
+			// uses per object
+			uses := map[types.Object][]*ast.Ident{}
+			ast.Inspect(f, func(n ast.Node) bool {
+				if id, ok := n.(*ast.Ident); ok {
+					if o := info.Uses[id]; o != nil {
+						uses[o] = append(uses[o], id)
+					}
+				}
+				return true
+			})
+			ast.Inspect(f, func(n ast.Node) bool {
+				blk, ok := n.(*ast.BlockStmt)
+				if !ok {
+					return true
+				}
+				for i := 0; i+1 < len(blk.List); i++ {
+					as, ok := blk.List[i].(*ast.AssignStmt)
+					if !ok || as.Tok != token.DEFINE || len(as.Lhs) != 1 || len(as.Rhs) != 1 {
+						continue
+					}
+					id, ok := as.Lhs[0].(*ast.Ident)
+					lit, isLit := as.Rhs[0].(*ast.FuncLit)
+					if !ok || !isLit || id.Name == "_" {
+						continue
+					}
+					obj := info.Defs[id]
+					if obj == nil || len(uses[obj]) != 1 {
+						continue
+					}
+					use := uses[obj][0]
+					next := blk.List[i+1]
+					if use.Pos() < next.Pos() || use.End() > next.End() {
+						continue
+					}
+					// the use is an argument of a call that is not inside a nested literal or a
+					// go/defer statement
+					replaced := false
+					okCtx := true
+					ast.Inspect(next, func(m ast.Node) bool {
+						switch v := m.(type) {
+						case *ast.FuncLit:
+							return false
+						case *ast.GoStmt, *ast.DeferStmt:
+							if use.Pos() >= v.Pos() && use.End() <= v.End() {
+								okCtx = false
+							}
+						case *ast.CallExpr:
+							for ai, a := range v.Args {
+								if a == ast.Expr(use) && okCtx && !replaced {
+									v.Args[ai] = lit
+									replaced = true
+								}
+							}
+						}
+						return true
+					})
+					if !replaced {
+						continue
+					}
+					blk.List = append(blk.List[:i:i], blk.List[i+1:]...)
+					affected[p] = true
+					notes = append(notes, fmt.Sprintf("closure %s at %s is passed on by the next statement only: judged as written in place", id.Name, l.relPos(id.Pos())))
+					i--
+				}
+				return true
+			})
 		}
 	}
 	if len(affected) == 0 {
